@@ -8,6 +8,7 @@
 From Coq Require Import List ZArith NArith Bool Lia Permutation.
 From Verif Require Import Base Grid Select SelectProofs Shard Exec Compose StreamWF Range MatrixRun Agg AggProofs Func Bin BinProofs
                           EndToEnd AggEnd Remote Trees DistTree.
+From Verif Require Import DistGroup.
 Import ListNotations.
 Open Scope Z_scope.
 
@@ -158,7 +159,7 @@ Qed.
 (* ---- the congruence ---------------------------------------------------------------------- *)
 
 (* the plans the distributed optimizer derives from a central plan: the same operators above
-   distributed forms of per-series expressions and of sum/max/min/count aggregations of them *)
+   distributed forms of per-series expressions and of sum/max/min/count/group aggregations of them *)
 Inductive jsim : jtree -> jtree -> Prop :=
 | sim_refl t : jsim t t
 (* the storage returns the selected series in another order *)
@@ -183,6 +184,10 @@ Inductive jsim : jtree -> jtree -> Prop :=
          (JAgg (fun v => v) Z.add without grouping
                (jcoalesce (JRemote (JCount conv without grouping (inst s (fst p) (snd p))))
                           (map (fun q => JRemote (JCount conv without grouping (inst s (fst q) (snd q)))) ps)))
+| sim_group c without grouping s p ps : sok s -> part_ok p -> Forall part_ok ps ->
+    jsim (JAgg (fun _ => c) (fun a _ => a) without grouping (inst s (concat (map fst (p :: ps))) (concat (map snd (p :: ps)))))
+         (JAgg (fun _ => c) (fun a _ => a) without grouping
+               (jcoalesce (remote_group_of c without grouping s p) (map (remote_group_of c without grouping s) ps)))
 | sim_map drops f t t' : jsim t t' -> jsim (JMap drops f t) (JMap drops f t')
 | sim_join p l l' r r' : jsim l l' -> jsim r r' -> jsim (JJoin p l r) (JJoin p l' r')
 | sim_aggc init add without grouping t t' :
@@ -223,7 +228,7 @@ Qed.
 
 Theorem jsim_requiv lb t t' : jsim t t' -> requiv lb t t'.
 Proof.
-  induction 1 as [t|ls sers ls' sers' off pin Hl Hl' Pc|keep fn range ls sers ls' sers' off pin Hl Hl' Pc|s p ps Hs Hp Hps|add without grouping s p ps Ha Hc Hs Hp Hps|conv without grouping s p ps Hconv Hs Hp Hps|drops f t t' _ IH|p l l' r r' _ IHl _ IHr
+  induction 1 as [t|ls sers ls' sers' off pin Hl Hl' Pc|keep fn range ls sers ls' sers' off pin Hl Hl' Pc|s p ps Hs Hp Hps|add without grouping s p ps Ha Hc Hs Hp Hps|conv without grouping s p ps Hconv Hs Hp Hps|c without grouping s p ps Hs Hp Hps|drops f t t' _ IH|p l l' r r' _ IHl _ IHr
                  |init add without grouping t t' L1 L2 _ IH|conv without grouping t t' _ IH|bottom k without grouping t t' _ IH
                  |t t' _ IH|l l' r r' _ IHl _ IHr|t t' _ IH]; intros ts.
   - apply oequiv_refl.
@@ -242,6 +247,10 @@ Proof.
     rewrite (pref_concat s Hs lb (p :: ps) ts (Forall_cons p Hp Hps)). unfold oequiv.
     rewrite <- (map_map (fun q => pref lb s (fst q) (snd q) ts) (fun X => rcount conv without grouping X)).
     apply (count_distributes_list conv Hconv).
+  - cbn [jref]. rewrite jref_inst, (jref_coalesce_group c without grouping s lb p ps ts).
+    rewrite (pref_concat s Hs lb (p :: ps) ts (Forall_cons p Hp Hps)). unfold oequiv.
+    rewrite <- (map_map (fun q => pref lb s (fst q) (snd q) ts) (fun X => ref_agg (fun _ => c) (fun a _ => a) without grouping X)).
+    apply (group_distributes_list c).
   - specialize (IH ts). cbn [jref]. destruct (jref lb t ts), (jref lb t' ts); simpl in *; try tauto. apply flat_map_perm. exact IH.
   - specialize (IHl ts). specialize (IHr ts). cbn [jref].
     destruct (jref lb l ts) as [L|], (jref lb l' ts) as [L'|]; simpl in IHl; try tauto;
